@@ -255,7 +255,7 @@ def joinSp : List (List Char) → List Char
     | _ :: _ => w ++ ' ' :: joinSp ws
 
 /-- `"( %s )" % " ".join(ws)` -/
-def n3Text (tok : Term → List Char) (xs : List Term) : List Char :=
+def n3Text {α : Type} (tok : α → List Char) (xs : List α) : List Char :=
   '(' :: ' ' :: (joinSp (xs.map tok) ++ [' ', ')'])
 
 /-- `Collection.n3()`: `"( %s )" % (" ".join([i.n3() for i in self]))`; `tok` is the members' own `n3()`.
@@ -264,6 +264,102 @@ def n3 (tok : Term → List Char) (g : Graph) (h : Term) : Except Err (List Char
   match iter g h with
   | .ok xs => .ok (n3Text tok xs)
   | .error e => .error e
+
+/-! ### rdflib's term syntax for the members (`URIRef.n3()`, `BNode.n3()`, `Literal.n3()` without a namespace
+    manager), and a reader of N3 list syntax -/
+
+/-- the terms a collection holds: IRI, blank node, literal (lexical form, datatype IRI, language tag) -/
+inductive RTerm
+  | iri (u : List Char)
+  | bnode (id : List Char)
+  | lit (lex : List Char) (dt : Option (List Char)) (lang : Option (List Char))
+  deriving DecidableEq, Repr
+
+/-- `Literal._quote_literal` for a lexical form without a line feed:
+    `.replace("\\", "\\\\").replace('"', '\\"').replace("\r", "\\r")` -/
+def escC (c : Char) : List Char :=
+  if c = '\\' then ['\\', '\\'] else if c = '"' then ['\\', '"'] else if c = '\r' then ['\\', 'r'] else [c]
+
+def esc : List Char → List Char
+  | [] => []
+  | c :: cs => escC c ++ esc cs
+
+/-- `term.n3()` -/
+def tokR : RTerm → List Char
+  | .iri u => '<' :: (u ++ ['>'])
+  | .bnode id => '_' :: ':' :: id
+  | .lit x (some d) _ => '"' :: (esc x ++ '"' :: '^' :: '^' :: '<' :: (d ++ ['>']))
+  | .lit x none (some l) => '"' :: (esc x ++ '"' :: '@' :: l)
+  | .lit x none none => '"' :: (esc x ++ ['"'])
+
+/-- split at the first `d`: what is before it, what is after it -/
+def untilC (d : Char) : List Char → Option (List Char × List Char)
+  | [] => none
+  | c :: cs =>
+    if c = d then some ([], cs)
+    else match untilC d cs with
+      | some (a, r) => some (c :: a, r)
+      | none => none
+
+/-- the characters up to the first blank, and the rest (starting with that blank) -/
+def word : List Char → List Char × List Char
+  | [] => ([], [])
+  | c :: cs => if c = ' ' then ([], c :: cs) else (c :: (word cs).1, (word cs).2)
+
+/-- read an escaped string body up to its closing quote -/
+def unesc : List Char → Option (List Char × List Char)
+  | [] => none
+  | c :: cs =>
+    if c = '"' then some ([], cs)
+    else if c = '\\' then
+      match cs with
+      | [] => none
+      | e :: cs' =>
+        match unesc cs' with
+        | some (a, r) => some ((if e = 'r' then '\r' else e) :: a, r)
+        | none => none
+    else match unesc cs with
+      | some (a, r) => some (c :: a, r)
+      | none => none
+
+/-- the term-level lexer: one IRI `<…>`, blank node `_:…`, or literal `"…"`, `"…"^^<…>`, `"…"@…` off the front -/
+def lexR : List Char → Option (RTerm × List Char)
+  | '<' :: cs =>
+    match untilC '>' cs with
+    | some (u, r) => some (.iri u, r)
+    | none => none
+  | '_' :: ':' :: cs => some (.bnode (word cs).1, (word cs).2)
+  | '"' :: cs =>
+    match unesc cs with
+    | none => none
+    | some (x, r) =>
+      match r with
+      | '^' :: '^' :: '<' :: r' =>
+        match untilC '>' r' with
+        | some (d, r'') => some (.lit x (some d) none, r'')
+        | none => none
+      | '@' :: r' => some (.lit x none (some (word r').1), (word r').2)
+      | _ => some (.lit x none none, r)
+  | _ => none
+
+/-- A reader of the inside of an N3 list `( … )`: skips blanks, stops at the closing parenthesis, and
+    otherwise lets the term-level lexer `lex` take one term off the front.  Fuel = characters left. -/
+def readItems {α : Type} (lex : List Char → Option (α × List Char)) : Nat → List Char → Option (List α)
+  | 0, _ => none
+  | f + 1, cs =>
+    if cs = [')'] then some []
+    else if cs.head? = some ' ' then readItems lex f cs.tail
+    else
+      match lex cs with
+      | none => none
+      | some (x, rest) =>
+        match readItems lex f rest with
+        | some xs => some (x :: xs)
+        | none => none
+
+def readN3 {α : Type} (lex : List Char → Option (α × List Char)) : List Char → Option (List α)
+  | '(' :: cs => readItems lex cs.length cs
+  | _ => none
 
 /-! ### The abstraction function: the list a chain denotes (strict walk) -/
 
